@@ -215,6 +215,27 @@ def check_write(res, c: _Ctx, m, it, block, j, form, path, deep=False):
         good = (rb == v) and type(rb) is type(v)
     if not good:
         res.fail(sig.format("readback-real"), f"{m}.{it.tag} <- {arg!r}: accessor reads back {rb!r}")
+    if it.kind == "Temp" and path == "both" and form != "str":
+        # the two write paths must also agree on temperatures the device cannot represent exactly (they are rounded onto the
+        # device grid: C14 judges the rounding, here only that both paths emit the same write), float and string form
+        c.struct.set_status_block(block)
+        for dv in (0.01, 0.03, 0.04, 0.07, -0.02):
+            for arg2 in (round(v + dv, 2), str(round(v + dv, 2))):
+                if float(arg2) < 0:
+                    continue
+                c.emitted.clear()
+                c.aemitted.clear()
+                try:
+                    acc.value = arg2
+                    e1 = list(c.emitted)
+                    _run_coro(acc.async_set_value(arg2))
+                    e2 = list(c.aemitted)
+                except Exception as exc:  # noqa
+                    res.fail(sig.format("write-raised"), f"{m}.{it.tag} <- {arg2!r} raised {exc!r}")
+                    break
+                if e1 != e2:
+                    res.fail(sig.format("paths-differ"), f"{m}.{it.tag} <- {arg2!r} ({unit}): blocking path emits {e1}, awaitable path emits {e2}")
+                    break
     if deep:
         # every other item of the pair whose field is disjoint decodes as before
         mine = set(it.bytes_range())
